@@ -270,9 +270,22 @@ def hocur_extract(ctx, d, m, mix):
 def hocur_exact(ctx, sel, mix):
     """hocur end to end, 2 modes x 2 functions, 2 snapshots, ranks 2: pivot searches replaced by admissible selections, exact adjugate inverse"""
     tdt = ctx.R.transform
-    if not ctx.sym:
-        raise SkipTV() if ctx.mode == 'tv' else HarnessError('symbolic-only scenario') if False else None
-    if ctx.mode != 'sym':
+    if ctx.mode == 'tv':
+        raise SkipTV()
+    if ctx.mode == 'conc':
+        # concrete replays: the unmodified hocur (its own pivot searches, real LAPACK) with ranks >= the true ranks reproduces the dense tensor
+        xc = np.asarray(ctx.input('x', (1, 2), False))
+        phic = [_funcs(ctx, tdt, 1, w) for w in mix]
+        Tc = np.asarray(_dense(ctx, xc, phic), dtype=float)
+        np.random.seed(7)
+        psi = tdt.hocur(xc, phic, 2, repeats=2, progress=False)
+        meta_ok(ctx, 'hocur', psi)
+        sv = np.linalg.svd(Tc.reshape(Tc.shape[0], -1), compute_uv=False)
+        sv2 = np.linalg.svd(Tc.reshape(-1, Tc.shape[-1]), compute_uv=False)
+        cond_ok = min(sv[sv > 1e-12 * sv[0]].min() / sv[0], sv2[sv2 > 1e-12 * sv2[0]].min() / sv2[0]) > 1e-4
+        if cond_ok:
+            ctx.eq('hocur (pivot selection %d) reproduces the tensor of basis-function products wherever the intersections are invertible' % sel,
+                   np.asarray(psi.full()).reshape(Tc.shape), Tc, tol=1e-6)
         return
     from symtt import state, lapack
     from symtt.scalar import Sc
